@@ -222,6 +222,7 @@ func genAccess(pkgs []*packages.Package) {
 	body += genConfinement(pkgs)
 	body += genChanOrder(all, syn)
 	body += genReturnsParam(pkgs)
+	body += genCopyFacts(pkgs)
 	writeLean("Access", "Shared-state accesses that can happen while tasks run concurrently, with the mutexes syntactically held.", body)
 }
 
